@@ -58,6 +58,8 @@ const (
 	GDrainAsset       = "g:every_position_of_an_asset_exits"
 	GWeightChangeOut  = "g:weight_change_while_a_staked_validator_is_out_of_the_set"
 	GRedelIntoUnclaim = "g:redelegate_into_a_position_with_indexed_but_unclaimed_rewards"
+	GShareFraction    = "g:withdraw_all_but_a_fraction_of_a_share_after_value_was_concentrated"
+	GMultiUnbondSlash = "g:several_delegators_undelegate_from_one_validator_then_it_is_slashed"
 )
 
 const (
@@ -72,7 +74,7 @@ func baseProfile() Profile {
 		Weights: map[string]int{
 			KDelegate: 22, KUndelegate: 14, KRedelegate: 10, KClaim: 6, KBlock: 22, KSlashHook: 3, KSlash: 4,
 			KDonate: 2, KNatDel: 2, KNatUndel: 2, KJail: 1, KUnjail: 1, KUpdate: 2, KUnbTime: 1, KCreate: 1, KDelete: 1,
-			GDrainAsset: 2,
+			GDrainAsset: 2, GShareFraction: 2,
 		},
 		MinSteps: 4, MaxSteps: 40,
 		UnbTimes:   []int64{ns, sec, 3600 * sec, 21 * day},
@@ -149,8 +151,10 @@ func (g *Gen) amount(name string, bal *big.Int, allowOver bool) string {
 		}
 		return bal.String()
 	case 5:
-		if bal.Cmp(big.NewInt(1)) > 0 {
-			return new(big.Int).Sub(bal, big.NewInt(1)).String()
+		// leave a remainder of a few units (below one share when a share is worth several tokens)
+		k := big.NewInt([]int64{1, 1, 1, 2, 3, 5, 9}[g.intn(name+"-rem", 7)])
+		if bal.Cmp(k) > 0 {
+			return new(big.Int).Sub(bal, k).String()
 		}
 		return "1"
 	case 6:
@@ -261,8 +265,10 @@ func (g *Gen) Setup() {
 	x.Apply(Op{K: KUnbTime, Dt: g.pickI("unbtime", g.p.UnbTimes)})
 	x.Apply(Op{K: KParams, Signer: "auth", Delay: g.pickI("delay", g.p.Delays), Interval: g.pickI("interval", g.p.Intervals)})
 	n := g.p.NAssetsMin + g.intn("nassets", g.p.NAssetsMax-g.p.NAssetsMin+1)
+	// which denominations: a rotation of the menu (offsets 2 and 4 start at a related pair)
+	rot := []int{0, 0, 0, 2, 4, 1, 3}[g.intn("denom-rotation", 7)]
 	for i := 0; i < n; i++ {
-		op := g.createOp(AssetDenoms[i], "auth")
+		op := g.createOp(AssetDenoms[(rot+i)%len(AssetDenoms)], "auth")
 		op.Legacy = false
 		x.Apply(op)
 	}
@@ -491,6 +497,18 @@ func (g *Gen) Step() {
 			}
 			bal := s.Reported(d)
 			op = Op{K: kind, D: d.D, V: d.V, Denom: d.Denom, Amt: g.amount("amt", bal, true)}
+			if kind != KClaim && g.pct("leave-part-of-a-share", 15) {
+				// when a delegator share is worth several tokens (value concentrated by a slash
+				// elsewhere): withdraw all but a fraction of ONE share
+				if tds, ok := s.Vals[d.V].DelShares[d.Denom]; ok && tds.IsPositive() {
+					tps := new(big.Rat).Quo(s.ValTokens(d.V, d.Denom), decRat(tds))
+					r := ratFloor(new(big.Rat).Mul(tps, big.NewRat(int64(3+g.intn("share-frac", 6)), 10)))
+					if r.Sign() > 0 && bal.Cmp(r) > 0 {
+						op.Amt = new(big.Int).Sub(bal, r).String()
+						g.x.Label("gen:leave-part-of-a-share:" + kind)
+					}
+				}
+			}
 			if kind == KRedelegate {
 				op.W = (d.V + 1 + g.intn("w", nv-1)) % nv
 				rp := g.p.RedelToExistingPct
@@ -727,6 +745,74 @@ func (g *Gen) Step() {
 		} else {
 			p := new(big.Int).Quo(x.Post().Vals[a].Tokens.BigInt(), big.NewInt(1_000_000)).Int64()
 			x.Apply(Op{K: KSlash, V: a, Frac: g.frac(), Power: p, Age: int64(g.intn("age", 2))})
+		}
+	case GMultiUnbondSlash:
+		// several delegators (and one delegator in two different blocks) undelegate from validator a:
+		// several distinct unbonding buckets point at a; then a is slashed
+		dn := g.anyDenom("denom")
+		a := g.intn("mu-a", nv)
+		k := 2 + g.intn("mu-k", 3)
+		for d := 0; d < k && d < NumDels; d++ {
+			cur := x.Post()
+			if _, ok := cur.FindDel(d, a, dn); !ok {
+				x.Apply(Op{K: KDelegate, D: d, V: a, Denom: dn, Amt: g.freshAmount("amt")})
+			}
+			cur = x.Post()
+			if pos, ok := cur.FindDel(d, a, dn); ok {
+				bal := cur.Reported(pos)
+				if bal.Cmp(big.NewInt(3)) > 0 {
+					x.Apply(Op{K: KUndelegate, D: d, V: a, Denom: dn, Amt: new(big.Int).Quo(bal, big.NewInt(int64(2+g.intn("mu-div", 3)))).String()})
+				}
+			}
+			if g.pct("mu-block-between", 30) {
+				x.Apply(Op{K: KBlock, Dt: sec, Fees: g.fees()})
+			}
+		}
+		if g.pct("hook", 50) {
+			x.Apply(Op{K: KSlashHook, V: a, Frac: g.frac()})
+		} else {
+			p := new(big.Int).Quo(x.Post().Vals[a].Tokens.BigInt(), big.NewInt(1_000_000)).Int64()
+			x.Apply(Op{K: KSlash, V: a, Frac: g.frac(), Power: p, Age: int64(g.intn("age", 2))})
+		}
+	case GShareFraction:
+		// a small position on validator a, a several times larger one on validator b; b is slashed
+		// hard (every share on a is now worth several tokens); the holder on a then withdraws or
+		// moves all but a fraction of ONE share
+		ds := g.assetDenoms()
+		if len(ds) == 0 {
+			return
+		}
+		dn := ds[g.intn("sf-denom", len(ds))]
+		D := g.del()
+		a := g.intn("sf-a", nv)
+		b := (a + 1 + g.intn("sf-b", nv-1)) % nv
+		small := new(big.Int).Mul(big.NewInt(int64(g.intn("sf-m", 9)+1)), pow10(2+g.intn("sf-k", 6)))
+		x.Apply(Op{K: KDelegate, D: D, V: a, Denom: dn, Amt: small.String()})
+		if g.pct("sf-second-holder", 40) {
+			x.Apply(Op{K: KDelegate, D: (D + 1) % NumDels, V: a, Denom: dn, Amt: new(big.Int).Mul(small, big.NewInt(int64(1+g.intn("sf-m2", 3)))).String()})
+		}
+		x.Apply(Op{K: KDelegate, D: (D + 2) % NumDels, V: b, Denom: dn, Amt: new(big.Int).Mul(small, big.NewInt(int64(5+g.intn("sf-times", 40)))).String()})
+		x.Apply(Op{K: KSlashHook, V: b, Frac: g.pickS("sf-frac", []string{"0.5", "0.8", "0.9", "0.95", "0.99"})})
+		cur := x.Post()
+		pos, ok := cur.FindDel(D, a, dn)
+		if !ok {
+			return
+		}
+		bal := cur.Reported(pos)
+		tds, ok := cur.Vals[a].DelShares[dn]
+		if !ok || !tds.IsPositive() || bal.Sign() <= 0 {
+			return
+		}
+		tps := new(big.Rat).Quo(cur.ValTokens(a, dn), decRat(tds))
+		r := ratFloor(new(big.Rat).Mul(tps, big.NewRat(int64(3+g.intn("sf-frac10", 6)), 10)))
+		amt := new(big.Int).Sub(bal, r)
+		if amt.Sign() <= 0 {
+			amt = bal
+		}
+		if g.pct("sf-redelegate", 60) {
+			x.Apply(Op{K: KRedelegate, D: D, V: a, W: (a + 1 + g.intn("sf-w", nv-1)) % nv, Denom: dn, Amt: amt.String()})
+		} else {
+			x.Apply(Op{K: KUndelegate, D: D, V: a, Denom: dn, Amt: amt.String()})
 		}
 	case GRedelIntoUnclaim:
 		// delegator D holds the same asset on validators a and b; rewards arrive; ANOTHER position on
